@@ -21,12 +21,12 @@ import (
 // from the case's PRNG, so a case is re-runnable from fw.Case alone.
 
 var (
-	two   = big.NewInt(2)
-	p63   = new(big.Int).Exp(two, big.NewInt(63), nil)
-	p64   = new(big.Int).Exp(two, big.NewInt(64), nil)
-	p128  = new(big.Int).Exp(two, big.NewInt(128), nil)
-	p255  = new(big.Int).Exp(two, big.NewInt(255), nil)
-	p256  = new(big.Int).Exp(two, big.NewInt(256), nil)
+	two    = big.NewInt(2)
+	p63    = new(big.Int).Exp(two, big.NewInt(63), nil)
+	p64    = new(big.Int).Exp(two, big.NewInt(64), nil)
+	p128   = new(big.Int).Exp(two, big.NewInt(128), nil)
+	p255   = new(big.Int).Exp(two, big.NewInt(255), nil)
+	p256   = new(big.Int).Exp(two, big.NewInt(256), nil)
 	max256 = new(big.Int).Sub(p256, big.NewInt(1))
 )
 
@@ -87,6 +87,54 @@ func (g *gen) userIdx(bech string) int {
 		}
 	}
 	return -1
+}
+
+// userIdxOf: index of the user an address string designates (either bech32 case), -1 if none
+func (g *gen) userIdxOf(addr string) int {
+	for i, u := range g.users {
+		if sameAccount(addr, u.Addr) {
+			return i
+		}
+	}
+	return -1
+}
+
+// grantees: users holding a fee allowance from user s (sorted by index)
+func (g *gen) grantees(s int) []int {
+	var hs []int
+	for i, u := range g.users {
+		if i != s && g.m.hasGrant(g.users[s].Bech, u.Bech) {
+			hs = append(hs, i)
+		}
+	}
+	return hs
+}
+
+func (g *gen) msgGrant(a, h int) msgSpec {
+	m := msgSpec{K: "grant", Creator: g.users[a].Bech, To: g.users[h].Bech, Variant: "basic"}
+	switch x := g.r.Intn(100); {
+	case x < 70:
+	case x < 85:
+		m.Variant = "spend-limit"
+	default:
+		m.Variant, m.ExpIn = "expiring", 20+2*g.r.Intn(60)
+	}
+	return m
+}
+
+func (g *gen) msgRevoke(a, h int) msgSpec {
+	return msgSpec{K: "revoke", Creator: g.users[a].Bech, To: g.users[h].Bech}
+}
+
+// delegate turns an honest message of user s into the delegated form: Creator stays s, the
+// transaction is signed by h (Signers = [h]). With an allowance s -> h the ante chain admits it
+// and the message acts for s; without one it must be refused.
+func (g *gen) delegate(m msgSpec, s, h int, class string) msgSpec {
+	m.Creator, m.Signers, m.CreatorClass = g.users[s].Bech, []string{g.users[h].Bech}, class
+	if class == "delegated-upper-creator" {
+		m.Creator = strings.ToUpper(m.Creator)
+	}
+	return m
 }
 
 // adminIdx: index of the user that currently is admin of d (-1: nobody among the users)
@@ -439,7 +487,9 @@ func (g *gen) scenario() bool {
 	hc, hs := g.honest, 0
 	_ = hs
 	mk := func(s int, m msgSpec) msgSpec { m.Creator, m.Signers = hc(s); m.CreatorClass = "self"; return m }
-	switch g.r.Intn(5) {
+	switch g.r.Intn(7) {
+	case 5, 6:
+		return g.delegationScenario(d)
 	case 0: // take-over attempt by an outsider, everything must bounce
 		x := g.otherThan(a)
 		if x == a {
@@ -512,6 +562,101 @@ func (g *gen) scenario() bool {
 	return true
 }
 
+// delegationScenario: the delegated-signing route for every operation kind on token d. The admin
+// a grants user h a fee allowance; h then signs create / mint / burn / set-metadata / change-admin
+// messages whose Metadata.Creator is a. Controls that the ante chain must refuse: the same message
+// before the grant, with an allowance in the wrong direction only, signed by a third user, and
+// after the revocation. Between mint and burn a plain transfer gives h a balance of its own, so
+// that "the balance that moves is the admin's" is decidable for the burn too.
+func (g *gen) delegationScenario(d string) bool {
+	a := g.adminIdx(d)
+	if a < 0 {
+		return false
+	}
+	A := g.users[a].Bech
+	// prefer a grantee that holds no allowance from a yet
+	h := g.otherThan(a)
+	for i := 0; i < 6 && g.m.hasGrant(A, g.users[h].Bech); i++ {
+		h = g.otherThan(a)
+	}
+	if h == a {
+		return false
+	}
+	x := g.otherThan(a)
+	for i := 0; i < 8 && (x == h || x == a); i++ {
+		x = g.r.Intn(len(g.users))
+	}
+	own := func(s int, m msgSpec) msgSpec { m.Creator, m.Signers = g.honest(s); m.CreatorClass = "self"; return m }
+	// message of a, signed by s
+	via := func(s int, m msgSpec, class, note string) blockSpec {
+		return one(s, g.delegate(own(a, m), a, s, class), note)
+	}
+	mint := func(amt string) msgSpec {
+		return msgSpec{K: "mint", Denom: d, Amt: amt, DenomClass: "existing", AmtClass: "small"}
+	}
+	burn := func(amt *big.Int, ac string) msgSpec {
+		return msgSpec{K: "burn", Denom: d, Amt: amt.String(), DenomClass: "existing", AmtClass: ac}
+	}
+	q := []blockSpec{}
+	if g.m.hasGrant(A, g.users[h].Bech) {
+		q = append(q, one(a, g.msgRevoke(a, h), "delegation/revoke-first"))
+	}
+	q = append(q, via(h, mint("11"), "no-allowance-control", "delegation/control-before-grant"))
+	if g.pct(50) {
+		if !g.m.hasGrant(g.users[h].Bech, A) {
+			q = append(q, one(h, g.msgGrant(h, a), "delegation/reverse-grant"))
+		}
+		q = append(q,
+			via(h, mint("12"), "reverse-allowance-control", "delegation/control-reverse-grant"),
+			via(h, burn(big.NewInt(1), "one"), "reverse-allowance-control", "delegation/control-reverse-grant"))
+	}
+	gr := g.msgGrant(a, h)
+	if gr.Variant == "expiring" {
+		gr.ExpIn += 40 // must outlive the scripted part
+	}
+	q = append(q, one(a, gr, "delegation/grant"))
+	bal := new(big.Int).Set(g.m.balance(d, A))
+	if g.pct(50) {
+		// burn first: the admin mints for itself, hands part of it to h, h burns as the admin
+		q = append(q,
+			one(a, own(a, mint("300")), "delegation/admin-mints"),
+			one(a, g.msgSend(a, d, h, big.NewInt(120)), "delegation/transfer-to-grantee"),
+			via(h, burn(big.NewInt(50), "within-balance"), "delegated", "delegation/burn"),
+			via(h, mint("600"), "delegated", "delegation/mint"))
+		bal.Add(bal, big.NewInt(300-120-50+600))
+	} else {
+		q = append(q,
+			via(h, mint("600"), "delegated", "delegation/mint"),
+			one(a, g.msgSend(a, d, h, big.NewInt(120)), "delegation/transfer-to-grantee"),
+			via(h, burn(big.NewInt(50), "within-balance"), "delegated", "delegation/burn"))
+		bal.Add(bal, big.NewInt(600-120-50))
+	}
+	q = append(q,
+		via(h, burn(new(big.Int).Add(bal, big.NewInt(1)), "balance+1"), "delegated", "delegation/burn-more-than-admin-holds"),
+		via(x, mint("5"), "no-allowance-control", "delegation/control-third-party"),
+		via(h, g.msgSetMeta(a, d, "existing"), "delegated", "delegation/set-metadata"),
+		via(h, msgSpec{K: "create", Sub: g.subs[g.r.Intn(len(g.subs))], DenomClass: "delegated-create"}, "delegated", "delegation/create"),
+	)
+	switch g.r.Intn(3) {
+	case 0: // the grantee hands the role over in the admin's name; the old admin's name is worthless afterwards
+		b := g.otherThan(a)
+		q = append(q,
+			via(h, msgSpec{K: "chadmin", Denom: d, NewAdmin: g.users[b].Bech, DenomClass: "existing", Variant: "other-user"}, "delegated", "delegation/change-admin"),
+			via(h, mint("7"), "delegated", "delegation/after-hand-over"),
+			via(h, burn(big.NewInt(1), "one"), "delegated", "delegation/after-hand-over"),
+			one(a, g.msgRevoke(a, h), "delegation/revoke"))
+	case 1: // revocation: the route is closed again
+		q = append(q,
+			one(a, g.msgRevoke(a, h), "delegation/revoke"),
+			via(h, mint("9"), "no-allowance-control", "delegation/control-after-revoke"),
+			via(h, burn(big.NewInt(1), "one"), "no-allowance-control", "delegation/control-after-revoke"),
+			via(h, msgSpec{K: "chadmin", Denom: d, NewAdmin: g.users[h].Bech, DenomClass: "existing", Variant: "self"}, "no-allowance-control", "delegation/control-after-revoke"))
+	default: // the allowance stays: the random walk keeps using the delegated route
+	}
+	g.queue = append(g.queue, q...)
+	return true
+}
+
 func (g *gen) next() blockSpec {
 	g.step++
 	if len(g.queue) > 0 {
@@ -525,7 +670,53 @@ func (g *gen) next() blockSpec {
 	return b
 }
 
+// single: one message and the user whose key signs it. An honest factory message of a user that
+// has granted somebody a fee allowance is often sent through the delegated route instead (same
+// Creator, signed by the grantee): every operation kind, every actor role, every denom / amount /
+// variant class therefore also arrives with creator != signer.
 func (g *gen) single() (int, msgSpec, string) {
+	s, m, note := g.single0()
+	if m.K == "send" || m.K == "grant" || m.K == "revoke" || m.CreatorClass != "self" {
+		return s, m, note
+	}
+	if hs := g.grantees(s); len(hs) > 0 && g.pct(45) {
+		h := hs[g.r.Intn(len(hs))]
+		class := "delegated"
+		if g.pct(4) {
+			class = "delegated-upper-creator"
+		}
+		return h, g.delegate(m, s, h, class), note + "/delegated"
+	}
+	return s, m, note
+}
+
+// allowanceOp: environment - a user grants / revokes a fee allowance (mostly an admin of some
+// token grants one to another user; an existing one is revoked or granted again, which must fail)
+func (g *gen) allowanceOp() (int, msgSpec, string) {
+	a := g.r.Intn(len(g.users))
+	if ds := g.tokenList(); len(ds) > 0 && g.pct(70) {
+		if i := g.adminIdx(ds[g.r.Intn(len(ds))]); i >= 0 {
+			a = i
+		}
+	}
+	if hs := g.grantees(a); len(hs) > 0 && g.pct(40) {
+		h := hs[g.r.Intn(len(hs))]
+		if g.pct(75) {
+			return a, g.msgRevoke(a, h), "revoke"
+		}
+		return a, g.msgGrant(a, h), "grant-again"
+	}
+	h := g.otherThan(a)
+	if g.pct(3) {
+		h = a // self-grant: refused by the fee-grant module
+	}
+	if !g.m.hasGrant(g.users[a].Bech, g.users[h].Bech) || g.pct(30) {
+		return a, g.msgGrant(a, h), "grant"
+	}
+	return a, g.msgRevoke(a, h), "revoke"
+}
+
+func (g *gen) single0() (int, msgSpec, string) {
 	ds := g.tokenList()
 	x := g.r.Intn(100)
 	if len(ds) == 0 && x >= 30 {
@@ -608,6 +799,12 @@ func (g *gen) fresh() blockSpec {
 		s, m0, _ := g.single()
 		msgs := []msgSpec{m0}
 		n := 1 + g.r.Intn(2)
+		as := s // the account the follow-up messages are meant to act for (the granter when m0 is delegated)
+		if strings.HasPrefix(m0.CreatorClass, "delegated") {
+			if i := g.userIdxOf(m0.Creator); i >= 0 {
+				as = i
+			}
+		}
 		for i := 0; i < n; i++ {
 			var m msgSpec
 			ds := g.tokenList()
@@ -617,17 +814,17 @@ func (g *gen) fresh() blockSpec {
 			} else if len(ds) > 0 {
 				d = ds[g.r.Intn(len(ds))]
 			} else {
-				d = "factory/" + g.users[s].Bech + "/" + m0.Sub
+				d = "factory/" + g.users[as].Bech + "/" + m0.Sub
 			}
 			switch g.r.Intn(4) {
 			case 0:
-				m = g.msgMint(s, d, "multi")
+				m = g.msgMint(as, d, "multi")
 			case 1:
-				m = g.msgBurn(s, d, "multi")
+				m = g.msgBurn(as, d, "multi")
 			case 2:
-				m = g.msgChAdmin(s, d, "multi")
+				m = g.msgChAdmin(as, d, "multi")
 			default:
-				m = g.msgSetMeta(s, d, "multi")
+				m = g.msgSetMeta(as, d, "multi")
 			}
 			if m0.K != "send" {
 				m.Creator, m.Signers, m.CreatorClass = m0.Creator, m0.Signers, m0.CreatorClass
@@ -651,6 +848,9 @@ func (g *gen) fresh() blockSpec {
 			txs = append(txs, txSpec{Signer: s, Msgs: []msgSpec{m}, Note: "multi-tx/" + note})
 		}
 		return blockSpec{Txs: txs}
+	case x < 24: // environment: fee allowance granted / revoked
+		s, m, note := g.allowanceOp()
+		return one(s, m, note)
 	}
 	s, m, note := g.single()
 	return one(s, m, note)
